@@ -362,6 +362,15 @@ def _const(c):
         return ('float', float(m.group(1)))
     if c.startswith('{') or c.startswith('ZeroSized'):
         return ('opaque', c)
+    m = re.match(r'^(?:core::|std::)?(?:num::<impl ([ui](?:8|16|32|64|size))>|([ui](?:8|16|32|64|size)))::(MAX|MIN|BITS)$', c)
+    if m:
+        ty = m.group(1) or m.group(2)
+        w, sg = INT_W[ty], ty[0] == 'i'
+        if m.group(3) == 'BITS':
+            return ('int', 32, w, False)
+        if m.group(3) == 'MAX':
+            return ('int', w, (1 << (w - 1)) - 1 if sg else (1 << w) - 1, sg)
+        return ('int', w, -(1 << (w - 1)) if sg else 0, sg)
     return ('path', c)
 
 
